@@ -101,7 +101,9 @@ Definition dev_poll (e : env) (d : dev) (draws : list Z) : dev * option irq * li
       if negb (t_enabled t) then (d, None, draws)
       else if t_time t =? 0 then
         match draws with
-        | x :: r => (DTimer (mkTimer true (t_lo t) (t_hi t) x (t_vect t) (t_prio t)), None, r)
+        | x :: r => (DTimer (mkTimer true (t_lo t) (t_hi t) x (t_vect t) (t_prio t)),
+                     (* a fresh count of 0 fires at once *)
+                     (if x =? 0 then Some (IVec (t_vect t) (clamp7 (t_prio t))) else None), r)
         | [] => (d, None, [])         (* the harness always supplies the observed draw *)
         end
       else if t_time t =? 1 then
